@@ -475,6 +475,8 @@ type FuncResult struct {
 	BaseFacts []*Term
 	AssumeBlk []int
 	Watch     []watchItem
+	PreConj   map[int]bool
+	Covers    []*Oblig // reachability covers: the negation must NOT be provable
 	anc       [][]bool // anc[b][a]: block a can reach block b in the back-edge-free CFG (or a == b)
 	Contract *Contract
 	Sweep    bool
@@ -495,16 +497,20 @@ func (e *Engine) Generate(fname string, sweep bool) (*FuncResult, error) {
 		loops: map[*ssa.BasicBlock]*loopInfo{}, rpoIdx: map[*ssa.BasicBlock]int{}, names: map[string]int{}, notes: map[string]bool{},
 		params: map[string]*Val{}, varAt: map[string]ssa.Value{}, varAtBlock: map[*ssa.BasicBlock]map[string]ssa.Value{}, lastCall: map[string]*Val{}, lastCallBlock: map[*ssa.BasicBlock]map[string]*Val{}, cutPhi: map[*ssa.Phi]*Val{}, closures: map[int]*closureInfo{},
 		tupleAddrs: map[ssa.Value]map[int]*AddrInfo{}, deferArgs: map[*ssa.Defer][]*Val{}, rangeOver: map[*ssa.Range]*Val{},
-		str2bytes: map[int]*Term{}, lockKeys: map[LeafKey][]lockUse{}, obligedAt: map[int][]*ssa.BasicBlock{}, localRefs: map[int]bool{}, globalsSeen: map[int]bool{}, boxed: map[int]*Val{}}
+		str2bytes: map[int]*Term{}, lockKeys: map[LeafKey][]lockUse{}, obligedAt: map[int][]*ssa.BasicBlock{}, localRefs: map[int]bool{}, globalsSeen: map[int]bool{}, boxed: map[int]*Val{}, varAll: map[string]map[ssa.Value]bool{}, univDone: map[string]bool{}, preConj: map[int]bool{}}
 	if g.con != nil && g.con.Trusted {
 		return &FuncResult{Name: fname, Contract: g.con}, nil
 	}
-	baseFactHook = func(t *Term) {
+	baseFactHook = func(t *Term, univ func() *Term, name string) {
 		if g.dry > 0 {
 			return
 		}
-		if g.factCapture != nil && mentionsBound(t) {
-			*g.factCapture = append(*g.factCapture, t)
+		if mentionsBound(t) {
+			// a read under a binder: state the type fact for the whole base function, once
+			if !g.univDone[name] {
+				g.univDone[name] = true
+				g.baseFacts = append(g.baseFacts, univ())
+			}
 			return
 		}
 		g.baseFacts = append(g.baseFacts, t)
@@ -512,8 +518,18 @@ func (e *Engine) Generate(fname string, sweep bool) (*FuncResult, error) {
 	g.run()
 	baseFactHook = nil
 	watch := g.inputWatch()
-	r := &FuncResult{Name: fname, Obligs: g.obligs, Assumes: g.assumes, Contract: g.con, Sweep: sweep, SpecErrs: g.specErrors, Pre: g.preTerms, BaseFacts: g.baseFacts, AssumeBlk: g.assumeBlk, Watch: watch}
+	r := &FuncResult{Name: fname, Obligs: g.obligs, Assumes: g.assumes, Contract: g.con, Sweep: sweep, SpecErrs: g.specErrors, Pre: g.preTerms, BaseFacts: g.baseFacts, AssumeBlk: g.assumeBlk, Watch: watch, PreConj: g.preConj}
 	r.computeAncestors(fn)
+	for i, rp := range g.retStates {
+		if rp.st.reach.IsFalse() {
+			continue
+		}
+		blk := -1
+		if rp.blk != nil {
+			blk = rp.blk.Index
+		}
+		r.Covers = append(r.Covers, &Oblig{Name: fmt.Sprintf("vac:unreachable-return:%s#%d", shortFunc(fname), i+1), Kind: "vacuity", Func: shortFunc(fname), Reach: rp.st.reach, Goal: False, NAssume: len(g.assumes), Blk: blk})
+	}
 	for n := range g.notes {
 		r.Notes = append(r.Notes, n)
 	}
